@@ -26,7 +26,7 @@ Open Scope list_scope.
 
 (* Python exception classes the path can raise (ECell = ParseMCNPCellError,
    ELoop = the LIKE loop does not terminate: the model ran out of fuel) *)
-Inductive err := EIndex | EValue | EType | EZeroDiv | EKey | ECell | EMissingLattice | EAssert | ETransf | ELoop.
+Inductive err := EIndex | EValue | EType | EZeroDiv | EKey | ECell | EMissingLattice | EAssert | ETransf | EAttr | ELoop.
 Inductive res (A : Type) := Ok (a : A) | Err (e : err).
 Arguments Ok {A}. Arguments Err {A}.
 
